@@ -957,6 +957,39 @@ theorem fromFn_refines (s : Src α) (n : Nat) (h : s.length < n) : drive fromFnS
 theorem fromFn_sizeHint (s : Src α) (n : Nat) : Brackets fromFnHint (drive fromFnStep n s).length := by
   simp [fromFnHint, Brackets]
 
+/-- `Stream<St: FusedStream>` (and a `from_fn`/`poll_fn` closure that keeps answering `Ended`):
+a script without premature `Ended` is fused -/
+theorem fromFn_fused (s : Src α) (hs : NoEnd s) : FusedAt fromFnStep s := by
+  refine aux_fused_of_inv _ NoEnd (· = []) ?_ ?_ ?_ s hs
+  · intro s hs; rcases s with _ | ⟨(x | _ | _), r⟩ <;>
+      first | exact aux_noEnd_nil | exact aux_noEnd_tail hs
+  · intro s hs he; rcases s with _ | ⟨(x | _ | _), r⟩ <;> simp_all [fromFnStep, Src.pull]
+    exact (aux_noEnd_head hs).elim
+  · intro s hs; subst hs; simp [fromFnStep, Src.pull]
+
+/-- `Stream::size_hint` / `StreamCompat::size_hint` forward the hint of what they wrap -/
+theorem stream_sizeHint (h : Src α → Hint) (hh : HintOk h) (s : Src α) (n : Nat) (hn : s.length < n) :
+    Brackets (h s) (drive fromFnStep n s).length := by
+  rw [fromFn_refines s n hn]; exact hh s
+
+/-- `Pending` is (vacuously) fused: it never reports `Ended` -/
+theorem pending_fused : FusedAt (pendingStep (α := α)) () := by
+  intro k hk; simp [pendingStep] at hk
+
+/-- `Pending::size_hint = (0, Some(0))`: nothing is ever yielded -/
+theorem pending_sizeHint (n : Nat) : Brackets pendingHint (drive (pendingStep (α := α)) n ()).length := by
+  rw [(pending_refines (α := α) n 0).1]; simp [pendingHint, Brackets]
+
+/-- `Repeat` is (vacuously) fused: it never reports `Ended` -/
+theorem repeat_fused (x : α) : FusedAt repeatStep x := by
+  intro k hk; simp [repeatStep] at hk
+
+/-- `Repeat::size_hint = (usize::MAX, None)`: no upper bound is promised and every lower bound is met
+(`m` polls yield `m` items, for every `m`) -/
+theorem repeat_sizeHint (x : α) : repeatHint.2 = none ∧ ∀ m, (drive repeatStep m x).length = m := by
+  refine ⟨rfl, fun m => ?_⟩
+  rw [repeat_refines]; simp
+
 /-! ### futures that drain a pull: collect / for_each / accumulate_all -/
 
 /-- polled to completion under any pending placement, the future has folded exactly the items -/
@@ -986,6 +1019,12 @@ theorem collect_refines (s : Src α) (acc : List α) (n : Nat) (h : s.length < n
   induction l generalizing acc with
   | nil => simp
   | cons x xs ih => simp [collectG, ih]
+
+/-- `ForEach`: polled to completion under any pending placement, the closure has been called with
+exactly the items, in order (the closure log is the accumulator) -/
+theorem forEach_refines (s : Src α) (n : Nat) (h : s.length < n) :
+    driveFut collectG n s [] = some (items s) := by
+  simpa using collect_refines s [] n h
 
 /-! ### chain (first input fused, as `Chain` demands) -/
 
